@@ -243,6 +243,14 @@ func (e *Engine) verifyFunc(key string, against *FuncContract, prefix string) (r
 		res.Flags = append(res.Flags, f)
 	}
 	sort.Strings(res.Flags)
+	if len(x.fnIDs) > 1 {
+		var ids []string
+		for id := range x.fnIDs {
+			ids = append(ids, id)
+		}
+		sort.Strings(ids)
+		x.sc.decls = append(x.sc.decls, "(assert (distinct "+strings.Join(ids, " ")+"))")
+	}
 	if a := x.so.strDistinctAxiom(); a != "" {
 		// string literals are pairwise distinct: prepend as declaration-time assertion
 		x.sc.decls = append(x.sc.decls, "(assert "+a+")")
